@@ -12,6 +12,7 @@ import glob
 import json
 import multiprocessing
 import os
+import re
 import time
 from concurrent.futures import ThreadPoolExecutor
 from fractions import Fraction
@@ -31,9 +32,12 @@ ACTIONS = ["BuildFirst", "BuildGlyph", "EndBuild", "SplitText", "GOAppend", "GOY
            "AnalyzeGroups", "AssignIndex", "SortBoxes", "Finish"]
 
 # family: (Params, Moves, MaxItems, Trs, Wheres, Firsts, actions that must be covered besides ACTIONS)
+COVER = ("ParamsCover", "CoverMoves", 3, "BothTr", "PageAndFigure", "First1",
+         ["GONewV", "GTBRepush", "SkipFigure", "BuildOther"])
 FAMILIES = {
     "quick": {
-        "lines":   ("ParamsLineQ", "LineMovesQ", 3, "BothTr", "PageOnly", "First1", ["GONewV"]),
+        "lines":   ("ParamsLineQH", "LineMovesQ", 3, "NoTr", "PageOnly", "First1", ["GOAppend"]),
+        "linesv":  ("ParamsLineQV", "LineMovesQ", 3, "BothTr", "PageOnly", "First1", ["GONewV"]),
         "stack":   ("ParamsStack", "StackMovesQ", 3, "NoTr", "PageOnly", "First1", []),
         "stack2":  ("ParamsStack", "StackMovesT", 2, "NoTr", "PageOnly", "First2", []),
         "columns": ("ParamsCols", "ColMovesQ", 4, "NoTr", "PageOnly", "First1", ["GTBRepush"]),
@@ -42,8 +46,8 @@ FAMILIES = {
     },
     "thorough": {
         "lines":   ("ParamsLineT", "LineMovesQ", 3, "BothTr", "PageOnly", "First1", ["GONewV"]),
-        "lines4":  ("ParamsLineQ", "LineMovesQ", 4, "BothTr", "PageOnly", "First1", ["GONewV"]),
-        "linesmix": ("ParamsLineQ", "LineMovesT", 3, "BothTr", "PageOnly", "First2", ["GONewV"]),
+        "lines4":  ("ParamsLineM", "LineMovesQ", 4, "BothTr", "PageOnly", "First1", ["GONewV"]),
+        "linesmix": ("ParamsLineM", "LineMovesT", 3, "BothTr", "PageOnly", "First2", ["GONewV"]),
         "stack":   ("ParamsStack", "StackMovesQ", 4, "NoTr", "PageOnly", "First1", []),
         "stack3":  ("ParamsStack", "StackMovesT", 3, "NoTr", "PageOnly", "First2", []),
         "stackv":  ("ParamsStackV", "StackMovesQ", 3, "BothTr", "PageOnly", "First1", ["GONewV"]),
@@ -79,22 +83,30 @@ def run_sim(ck, invariants, dev, seed):
                     properties=["Termination"], deadlock=True)
     emit = os.path.join(ck.tmp, "lay_sim.ndjson")
     res = run_tlc(SPEC, cfg, emit=emit, workers=4, simulate={"num": num}, depth=120, seed=seed, timeout=900, heap="4g")
+    m = re.search(r"The number of states generated: (\d+)", res.stdout)
+    if m:
+        res.generated = int(m.group(1))       # simulation mode: states visited along the random behaviours
     return "simulate", fam, res, emit
 
 
-def tlc_direction_a(ck, invariants, dev):
+def tlc_direction_a(ck, invariants, dev, extra_jobs=()):
     """-> list of (family name, emit path).  TLC violation of an invariant on the intended design = the property does
-    not hold of the design: reported as a violation with the invariant's name."""
+    not hold of the design: reported as a violation with the invariant's name.
+    extra_jobs: callables (other TLC runs: trace validation, as-coded design) run in the same thread pool; their
+    results are returned by extra_results()."""
     fams = FAMILIES[ck.tier]
     jobs = []
     nw = max(2, (os.cpu_count() or 4) // 3)
-    with ThreadPoolExecutor(max_workers=4) as ex:
-        for name, fam in fams.items():
-            jobs.append(ex.submit(run_family, ck, name, fam, invariants, dev, nw, ck.tier == "quick"))
+    with ThreadPoolExecutor(max_workers=5) as ex:
+        # biggest first
+        for name, fam in sorted(fams.items(), key=lambda kv: kv[0] not in ("lines", "linesv", "lines4", "linesmix", "columns", "columns4")):
+            jobs.append(ex.submit(run_family, ck, name, fam, invariants, dev, nw, False))
+        jobs.append(ex.submit(run_family, ck, "cover", COVER, invariants, dev, 2, True))
         jobs.append(ex.submit(run_sim, ck, invariants, dev, ck.seed))
+        xj = [ex.submit(j) for j in extra_jobs]
         done = [j.result() for j in jobs]
+        _XR[:] = [j.result() for j in xj]
     outs = []
-    cov = {}
     for name, fam, res, emit in done:
         ck.add_tlc(res, "%s: %s x %s, <= %d items%s" % (name, fam[0], fam[1], fam[2], " (-simulate)" if name == "simulate" else ""))
         if not res.ok:
@@ -104,18 +116,21 @@ def tlc_direction_a(ck, invariants, dev):
                          % (res.violated, name, st.get("page", "?")[:300], st.get("P", "?")[:200]),
                          {"family": name, "tlc": res.error_text[:6000]})
             continue
-        for an, (d, g) in res.actions.items():
-            cov[an] = cov.get(an, 0) + g
-        if res.actions:
-            # vacuity: the actions this family is there for
-            require_coverage(res, fam[6])
+        if name == "cover":
+            # vacuity guard: every action of the machine is taken (TLC -coverage on the small space)
+            require_coverage(res, ACTIONS + fam[6])
+            ck.extra["action_coverage"] = {a: v[1] for a, v in sorted(res.actions.items()) if a != "Finished"}
+        if res.emitted == 0:
+            raise MachineryError("family %s: TLC completed no analysis" % name)
         outs.append((name, emit))
-    if cov:
-        missing = [a for a in ACTIONS if cov.get(a, 0) < 1]
-        if missing:
-            raise MachineryError("vacuous run: action(s) never taken in any family: %s" % ", ".join(missing))
-        ck.extra["action_coverage"] = {a: cov[a] for a in sorted(cov) if a != "Finished"}
     return outs
+
+
+_XR = []
+
+
+def extra_results():
+    return list(_XR)
 
 
 def load_groups(emit):
@@ -279,8 +294,8 @@ def replay_pdf_chunk(job):
     return res
 
 
-def direction_a(ck, mode, invariants, dev, pdf_every, pdf_scales, pdf_text_every):
-    outs = tlc_direction_a(ck, invariants, dev)
+def direction_a(ck, mode, invariants, dev, pdf_every, pdf_scales, pdf_text_every, extra_jobs=()):
+    outs = tlc_direction_a(ck, invariants, dev, extra_jobs)
     t0 = time.time()
     allgroups = []
     per_family = {}
@@ -410,7 +425,9 @@ def record_file(args):
     return out
 
 
-def direction_b(ck, mode, dev, corrupt=None):
+def record_samples(ck, mode, corrupt=None):
+    """run the real analysis on the samples with the recorder on; evaluate the property's predicates on every real
+    tree; -> trace records.  (uses a process pool: call before any thread is started)"""
     import random
     rng = random.Random(ck.seed)
     files = sample_files(ck.tier, rng)
@@ -421,7 +438,7 @@ def direction_b(ck, mode, dev, corrupt=None):
     jobs = [(f, v, maxpages, 30 if ck.tier == "quick" else 60) for f in files for v in variants]
     ctx = multiprocessing.get_context("fork")
     with ctx.Pool(min(16, os.cpu_count() or 4)) as pool:
-        results = pool.map(record_file, jobs)
+        results = pool.map(record_file, jobs, chunksize=1)
     traces = []
     rounding = {}
     errors = 0
@@ -430,7 +447,7 @@ def direction_b(ck, mode, dev, corrupt=None):
             errors += 1
             continue
         for key, msg, origin in (r["fail08"] if mode == "C08" else r["fail09"]):
-            if key == "index" and ck.is_known("dev:NoIndexFlowNone") and r["la"].get("boxes_flow", 0) is None:
+            if key == "index" and ck.is_known("dev:NoIndexFlowNone") and "boxes_flow" in r["la"] and r["la"]["boxes_flow"] is None:
                 ck.violation("dev:NoIndexFlowNone", msg, {"origin": origin})
             else:
                 ck.violation(key, "%s (%s)" % (msg, origin), {"origin": origin, "laparams": r["la"]})
@@ -440,22 +457,18 @@ def direction_b(ck, mode, dev, corrupt=None):
                 rounding[k] = rounding.get(k, 0) + v
             traces.append(tr)
             ck.case(1, ("B", tr["origin"]) if tr["n"] >= 2 else None)
+    ck.extra["sample_files"] = len(files)
     ck.extra["sample_runs_failed_to_parse"] = errors
     ck.extra["rounding_sensitive_facts"] = rounding
     if not traces:
         raise MachineryError("no analysis was recorded from the samples")
     if corrupt:
         corrupt(traces)
-    # size limit per TLC run: big pages are slow in the neighbour / heap stages
-    traces.sort(key=lambda t: t["n"])
     limit = 2500 if ck.tier == "quick" else 12000
     traces = [t for t in traces if t["n"] <= limit]
-    acc, rej = validate_traces(ck, traces, dev, mode)
-    ck.traces += acc
     ck.extra["trace_containers"] = len(traces)
     ck.extra["trace_glyphs"] = sum(t["n"] for t in traces)
     ck.extra["trace_heap_events"] = sum(len(t["ev"]) for t in traces)
-    ck.extra["traces_rejected"] = rej
     if traces:
         big = max(traces, key=lambda t: t["n"])
         ck.sample({"recorded_container": big["origin"], "glyphs": big["n"], "lines": len(big["lines"]),
@@ -463,75 +476,95 @@ def direction_b(ck, mode, dev, corrupt=None):
     return traces
 
 
+def direction_b(ck, mode, dev, corrupt=None):
+    """stand-alone direction B (recording + validation)"""
+    traces = record_samples(ck, mode, corrupt)
+    jobs = trace_jobs(ck, traces, dev, mode)
+    with ThreadPoolExecutor(max_workers=6) as ex:
+        results = list(ex.map(lambda j: j(), jobs))
+    finish_traces(ck, results)
+    return traces
+
+
 TRACE_INV = {"C08": ["TConservation", "TBBoxIsUnion", "TOneOrientationAndNewline", "TLineOrder", "TIndices0toN", "TTextIsConcat"],
              "C09": ["TGroupOrder", "TLineOrder"]}
 
 
-def validate_traces(ck, traces, dev, mode, batch=40):
-    """-> (accepted, rejected).  Batches run in parallel TLC processes; a rejected record is reported and the rest of
-    its batch is re-run."""
+def trace_jobs(ck, traces, dev, mode):
+    """-> callables, one per batch of records; each runs TLC on LayoutTrace.tla (a rejected record is reported and the
+    rest of its batch is run again) and returns (accepted, rejected, results)"""
     cfg = write_cfg(os.path.join(ck.tmp, "lay_trace.cfg"), constants={"Dev": tla_set(dev) if dev else "{}"}, spec="Spec",
                     invariants=TRACE_INV[mode], deadlock=True)
-    nb = max(1, min(6, (len(traces) + 3) // 4, (len(traces) + batch - 1) // batch * 6))
+    nb = max(1, min(6, (len(traces) + 3) // 4))
     order = sorted(traces, key=lambda t: -t["n"])
     batches = [order[i::nb] for i in range(nb)]
 
-    def one(bi):
-        todo = list(batches[bi])
-        acc = rej = 0
-        results = []
-        n = 0
-        while todo:
-            n += 1
-            tf = os.path.join(ck.tmp, "lay_traces_%d_%d.json" % (bi, n))
-            with open(tf, "w") as f:
-                json.dump(todo, f)
-            res = run_tlc(TRACE_SPEC, cfg, workers=1, env={"TRACE_FILE": tf, "JAVA_TOOL_OPTIONS": "-Xss512m"}, timeout=3600, heap="3g")
-            os.remove(tf)
-            results.append(res)
-            if res.ok:
-                acc += len(todo)
-                break
-            if not res.error_trace:
-                raise MachineryError("trace validation failed without a trace: " + res.error_text[:2000])
-            st = res.error_trace[-1][1]
-            ti = int(st["t"])
-            tr = todo[ti - 1]
-            acc += ti - 1
-            rej += 1
-            results.append(("rejected", tr, res.violated, st.get("st", "?"), st.get("k", "?")))
-            todo = todo[ti:]
-        return acc, rej, results
+    def make(bi):
+        def one():
+            todo = list(batches[bi])
+            acc = rej = 0
+            results = []
+            n = 0
+            while todo:
+                n += 1
+                tf = os.path.join(ck.tmp, "lay_traces_%d_%d.json" % (bi, n))
+                with open(tf, "w") as f:
+                    json.dump(todo, f)
+                res = run_tlc(TRACE_SPEC, cfg, workers=1, env={"TRACE_FILE": tf, "JAVA_TOOL_OPTIONS": "-Xss512m"},
+                              timeout=3600, heap="3g")
+                os.remove(tf)
+                results.append(res)
+                if res.ok:
+                    acc += len(todo)
+                    break
+                if not res.error_trace:
+                    raise MachineryError("trace validation failed without a trace: " + res.error_text[:2000])
+                st = res.error_trace[-1][1]
+                ti = int(st["t"])
+                tr = todo[ti - 1]
+                acc += ti - 1
+                rej += 1
+                results.append(("rejected", tr, res.violated, st.get("st", "?"), st.get("k", "?")))
+                todo = todo[ti:]
+            return acc, rej, results
+        return one
+    return [make(i) for i in range(len(batches))]
+
+
+def finish_traces(ck, job_results):
     acc = rej = 0
-    with ThreadPoolExecutor(max_workers=6) as ex:
-        for a, r, results in ex.map(one, range(len(batches))):
-            acc += a
-            rej += r
-            for x in results:
-                if isinstance(x, tuple):
-                    _, tr, viol, st, k = x
-                    key = "trace-rejected:" + (viol if viol != "deadlock" else "skeleton:%s" % st.strip('"'))
-                    ck.violation(key, "recorded analysis of %s is not a behaviour of the layout specification: %s at stage %s step %s"
-                                 % (tr["origin"], viol, st, k),
-                                 {"origin": tr["origin"], "stage": st, "step": k, "violated": viol, "glyphs": tr["n"]})
-                else:
-                    ck.add_tlc(x, "trace validation (LayoutTrace)")
-    # keep the evidence list of TLC runs short
-    tv = [r for r in ck.tlc_runs if r["label"].startswith("trace validation")]
-    if len(tv) > 1:
-        merged = {"label": "trace validation (LayoutTrace), %d TLC runs" % len(tv), "distinct": sum(r["distinct"] for r in tv),
-                  "generated": sum(r["generated"] for r in tv), "depth": max(r["depth"] for r in tv),
-                  "wall_s": round(sum(r["wall_s"] for r in tv), 1), "actions": None}
-        ck.tlc_runs = [r for r in ck.tlc_runs if not r["label"].startswith("trace validation")] + [merged]
+    runs = []
+    for a, r, results in job_results:
+        acc += a
+        rej += r
+        for x in results:
+            if isinstance(x, tuple):
+                _, tr, viol, st, k = x
+                key = "trace-rejected:" + (viol if viol != "deadlock" else "skeleton:%s" % st.strip('"'))
+                ck.violation(key, "recorded analysis of %s is not a behaviour of the layout specification: %s at stage %s step %s"
+                             % (tr["origin"], viol, st, k),
+                             {"origin": tr["origin"], "stage": st, "step": k, "violated": viol, "glyphs": tr["n"]})
+            else:
+                runs.append(x)
+    if runs:
+        class M:
+            pass
+        m = M()
+        m.distinct = sum(r.distinct for r in runs)
+        m.generated = sum(r.generated for r in runs)
+        m.depth = max(r.depth for r in runs)
+        m.wall = sum(r.wall for r in runs)
+        m.actions = {}
+        m.cmd = runs[0].cmd
+        ck.add_tlc(m, "trace validation (LayoutTrace.tla), %d TLC runs" % len(runs))
+    ck.traces += acc
+    ck.extra["traces_rejected"] = rej
     return acc, rej
 
 
 # ------------------------------------------------------------------------------------------------ the as-coded design
 def ascoded_model_run(ck, dev, invariants):
-    """TLC on the specification with the named deviations switched on: the as-coded design breaks the property.
-    -> name of the violated invariant or None"""
+    """TLC on the specification with the named deviations switched on (the design as coded), small space."""
     fam = ("ParamsFig", "FigMoves", 2, "NoTr", "PageOnly", "First1", [])
     cfg = write_cfg(os.path.join(ck.tmp, "lay_ascoded.cfg"), constants=consts(fam, dev), invariants=invariants, deadlock=True)
-    res = run_tlc(SPEC, cfg, workers=2, timeout=600)
-    ck.add_tlc(res, "as-coded design (Dev=%s) on a small space" % ",".join(dev))
-    return res
+    return run_tlc(SPEC, cfg, workers=2, timeout=600)
